@@ -59,3 +59,25 @@ Theorem c08_emails_constraint : forall values s,
   extract_entities values = [] \/ In (a_email s) (extract_entities values).
 Proof. exact check_allowed_emails_spec. Qed.
 Print Assumptions c08_emails_constraint.
+
+(* ---- the same rules at login ---- *)
+(* a login is admitted iff the validator accepts the session's e-mail and the provider's group rule holds *)
+Theorem c08_login_rules : forall validator allowed s,
+  login_admits validator allowed s = true <-> validator (a_email s) = true /\ authorize allowed s = true.
+Proof. exact login_admits_rules. Qed.
+Print Assumptions c08_login_rules.
+
+(* what was admitted at login is served by a request under the same rules; conversely a served session that
+   carries an e-mail would have been admitted at login: no rule is applied at one of the two places only *)
+Theorem c08_admitted_then_served : forall validator allowed s,
+  login_admits validator allowed s = true ->
+  get_authenticated_session false validator allowed (Some s) = (AuthOK (Some s), false).
+Proof. exact admitted_then_served. Qed.
+Print Assumptions c08_admitted_then_served.
+
+Theorem c08_served_then_admissible : forall validator allowed s c,
+  a_email s <> [] ->
+  get_authenticated_session false validator allowed (Some s) = (AuthOK (Some s), c) ->
+  login_admits validator allowed s = true.
+Proof. exact served_then_admissible. Qed.
+Print Assumptions c08_served_then_admissible.
